@@ -151,14 +151,11 @@ def _parse_tla_value(s: str):
 def _extract_prints(out: str):
     """PrintT values start a line with '<<"' ; a value may span lines.  Parse by bracket matching."""
     res = []
-    i = 0
     n = len(out)
-    while True:
-        j = out.find('<<"', i)
-        if j < 0:
-            break
-        if j > 0 and out[j - 1] != "\n":
-            i = j + 3
+    starts = [m.start() for m in re.finditer(r'^<<\s*"', out, re.M)]   # wide values are wrapped: '<< "TAG",\n   ...'
+    i = 0
+    for j in starts:
+        if j < i:
             continue
         # bracket match
         depth = 0
